@@ -179,3 +179,27 @@ PROPS.update({
         "Trusted: hook counters, harness.",
         "instrumented step/live-plan counters against the linear bound"),
 })
+
+PROPS.update({
+    "C05": {
+        "lean": [], "gens": ["c05d"], "level": "exploration", "release": True,
+        "rule": "cases: data-codeword streams: all streams of length <= 2 (exhaustive, 65793), every latch/header codeword followed by all triples over 17 interesting values, ECI 3/11/13/26/27 (+ unsupported) followed by every byte, grammar-aware mutations of valid encoder output (random/special byte, truncation, inserted latch/unlatch/ECI designator, C40 pairs 0,0 and 255,255, upper shift at the end, swaps), raw random bytes; every case through decode_data and decode_str, model and implementation compared incl. error variant; non-trivial = distinct streams of >= 2 codewords",
+        "explanation": "Totality of the decoding entry points: the Lean model (every Rust panic site an explicit outcome) is compared with the implementation on every case; any panic of the implementation is a violation on its own.",
+        "level_text": "Exploration + model correspondence for the data decoder; see DESIGN.md for the parts that are theorems (C08 parser totality) and the parts under construction (RS decoder).",
+        "level_note": "Trusted: harness (catch_unwind, checked profile = overflow checks + debug assertions on; release profile in the thorough tier).",
+        "technique": "Lean model with explicit panic outcomes, model/implementation correspondence on exhaustive-short and grammar-aware mutated streams",
+        "assumptions": [],
+    },
+    "C15": {
+        "lean": [], "gens": ["c15"], "level": "exploration", "release": False,
+        "exhaustive": False,
+        "rule": "cases: ECI numbers 0..20000 exhaustively plus every 97th up to 999999 and boundaries (thorough: all 1,000,000): designator written by the encoder vs Table 6 and read back; all 1- and 2-codeword designators (65792, exhaustive), 3-codeword designators sampled (thorough: all with first codeword 180..215); every byte under ECI 0/3/11/13/26/27 through the public string decoder vs the Unicode mapping tables (exhaustive, 6*256); valid/invalid UTF-8 and 7-bit sequences; non-trivial = distinct requests",
+        "explanation": "Designators: the implementation's output for each ECI number must equal the ISO/IEC 16022 Table 6 form (DM/Spec/Eci.lean) and read back as the same number; malformed designators must be rejected (model = spec). Character sets: each byte must decode exactly as ISO-8859-1/-9/-11 (DM/Spec/Charsets.lean) or give CharsetError.",
+        "level_text": "Exploration with specification oracle, exhaustive on the finite parts in the thorough tier.",
+        "level_note": "Trusted: Spec/Eci.lean (Table 6) and Spec/Charsets.lean (Unicode mapping files, typed from memory) as definition; harness.",
+        "technique": "specification oracle (Table 6, Unicode mapping tables) + model correspondence, exhaustive over finite domains",
+        "assumptions": [],
+    },
+})
+NONTRIVIAL["C05"] = lambda r: len(r.split()) >= 2 and len(r.split()[1]) >= 4
+NONTRIVIAL["C15"] = lambda r: True
